@@ -100,6 +100,53 @@ extern "C" void w_assemble(int* bind, int nrows, int ncols, int st, double timel
 }
 #endif
 
+#ifdef INST_solves
+/* try/catch is not supported by the front end: `try { A } catch(const SPxException& E) { B }` is compiled as
+ * `if(1) { A } else for(const SPxException& E = verif_exc(); 0;) { B }`, i.e. the stub solves never throw */
+struct SPxException { const char* what() const { return ""; } };
+static SPxException g_exc_obj;
+static inline const SPxException& verif_exc() { return g_exc_obj; }
+#define try if(1)
+#define catch(x) else for(x = verif_exc(); 0;)
+struct SSVectorRational { int dim; void reDim(int n) { dim = n; } };
+extern "C" { extern int g_solve_left, g_solve_right, g_redim; extern const void* g_solve_arg; extern const void* g_solve_out; extern int g_status_after_compute; }
+struct LUStub2 : LUStub
+{
+   void solveLeft(SSVectorRational& x, const SVectorRational& b) { g_solve_left++; g_solve_arg = &b; g_solve_out = &x; g_redim = x.dim; }
+   void solveRight(SSVectorRational& x, const SVectorRational& b) { g_solve_right++; g_solve_arg = &b; g_solve_out = &x; g_redim = x.dim; }
+};
+struct H : Host
+{
+   LUStub2 _rationalLUSolver;   /* hides Host::_rationalLUSolver: same interface plus the solves */
+   bool computeBasisInverseRational() { g_cbir_calls++; _rationalLUSolver.st = g_status_after_compute; return g_status_after_compute == SLinSolverRational::OK; }
+   bool getBasisInverseRowRational(const int r, SSVectorRational& vec)
+   {
+#include "invrow.inc"
+   }
+   bool getBasisInverseColRational(const int c, SSVectorRational& vec)
+   {
+#include "invcol.inc"
+   }
+   bool getBasisInverseTimesVecRational(const SVectorRational& rhs, SSVectorRational& sol)
+   {
+#include "invvec.inc"
+   }
+};
+extern "C" int w_solves(int which, int nrows, int st, int k)
+{
+   SVectorRational units[CAPD], rhs; SSVectorRational out; out.dim = -1;
+   H h; h._rationalLUSolver.st = st; h.units = units; g_nrows = nrows;
+   int ret;
+   const void* expect;
+   if(which == 0) { ret = h.getBasisInverseRowRational(k, out); expect = &units[k]; }
+   else if(which == 1) { ret = h.getBasisInverseColRational(k, out); expect = &units[k]; }
+   else { ret = h.getBasisInverseTimesVecRational(rhs, out); expect = &rhs; }
+   if(ret)
+      __CPROVER_assert(g_solve_arg == expect && g_solve_out == &out, "the solve is applied to the k-th unit vector (resp. the caller's right-hand side) and writes the caller's vector");
+   return ret;
+}
+#endif
+
 #ifdef INST_compute
 struct H : Host
 {
